@@ -42,6 +42,7 @@ NPROC = min(16, os.cpu_count() or 4)
 # quick tier: entries every traversal / decoder hangs on - all their retype faults are applied, not a sample
 IMPORTANT_KEYS = {"DescendantFonts", "Kids", "Contents", "Resources", "Font", "Encoding", "ToUnicode", "W", "Widths",
                   "Length", "Filter", "DecodeParms", "Root", "Pages", "Prev", "XRefStm", "Index", "Encrypt", "ID"}
+IMPORTANT_SITES_PER_ROLE = 2
 # quick tier: faults sampled per (seed, class, kind) stratum
 QUICK_PER_STRATUM = {"value": 3, "payload": 8, "file": 25, "xrefent": 2}
 
@@ -107,8 +108,20 @@ def sample_faults(faults, seed, descs):
     base = {d["name"]: {x["id"]: x["base"] for x in d["sites"]} for d in descs}
     groups = collections.OrderedDict()
     out = []
+    # important entries: per seed, key and kind of owner (object / object stream / xref stream / trailer - different
+    # code reads them) the first IMPORTANT_SITES_PER_ROLE sites in file order get the full treatment
+    important = set()
+    for d in descs:
+        per_role = collections.Counter()
+        for x in d["sites"]:
+            key = x["id"].rsplit("/", 1)[-1]
+            if "/" in x["id"] and key in IMPORTANT_KEYS:
+                role = (key, x["id"].split(":")[0])
+                per_role[role] += 1
+                if per_role[role] <= IMPORTANT_SITES_PER_ROLE:
+                    important.add((d["name"], x["id"]))
     for s, fd in faults:
-        if fd["kind"] == "retype" and fd["site"].rsplit("/", 1)[-1] in IMPORTANT_KEYS and "/" in fd["site"]:
+        if fd["kind"] == "retype" and (s, fd["site"]) in important:
             # structurally important entries: every retype representative (empty and non-empty array / dictionary /
             # string, scalars, each also behind a reference) is applied in every quick run
             out.append((s, fd))
